@@ -51,9 +51,14 @@ def make_model(case, calls, summary_tag=0, dist_tag=0, narrow=False):
 
     def sim(*p, batch_size=1, random_state=None, meta=None):
         calls.log.append(('sim', meta['batch_index']))
-        return sum(p) + random_state.randn(batch_size)
+        base = sum(p) + random_state.randn(batch_size)
+        if case.get('sim_shape') == 'matF':
+            # a table-valued output handed over column-major (e.g. a transposed view): same values, other memory order
+            return np.asfortranarray(np.column_stack([base, 2 * base + 1, base - 3]))
+        return base
 
-    Y = elfi.Simulator(sim, *params, model=m, name='sim', observed=np.array([0.7]))
+    Y = elfi.Simulator(sim, *params, model=m, name='sim',
+                       observed=np.array([[0.7, 2.4, -2.3]]) if case.get('sim_shape') == 'matF' else np.array([0.7]))
     Y.uses_meta = True
     sums = []
     for k in range(case['n_sum']):
@@ -100,8 +105,10 @@ def gen_case(rng):
     steps = ['fill']
     for _ in range(rng.randint(1, 4)):
         steps.append(rng.choice(['rerun', 'extend', 'add-store', 'remove-store', 'replace-summary', 'replace-distance', 'reopen', 'clear', 'save', 'save']))
-    return dict(n_params=n_params, hier=rng.random() < .5, n_sum=n_sum, stores=stores, disk=rng.random() < .4,
-                b=rng.randint(1, 5), seed=rng.randrange(2**31), steps=steps, fill=rng.randint(1, 4))
+    mat = rng.random() < .3
+    return dict(n_params=n_params, hier=rng.random() < .5, n_sum=n_sum, stores=stores, disk=rng.random() < (.7 if mat else .4),
+                b=rng.randint(2, 5) if mat else rng.randint(1, 5), seed=rng.randrange(2**31), steps=steps, fill=rng.randint(1, 4),
+                sim_shape='matF' if mat else 'vec')
 
 
 def drop(st, keep_file=False):
@@ -162,6 +169,7 @@ def one(ctx, case, tmp, reqs, meta):
             return
     ctx.count('pool.kind', 'ArrayPool' if case['disk'] else 'OutputPool')
     ctx.count('stores', '+'.join(case['stores']))
+    ctx.count('sim_output', case.get('sim_shape', 'vec'))
     nb = case['fill']
     user_nodes = ['t1'] + (['t2'] if case['n_params'] == 2 else []) + ['sim'] + ['S%d' % k for k in range(case['n_sum'])] + ['d']
     for si, step in enumerate(case['steps']):
